@@ -21,54 +21,11 @@
 #include "file.h"
 #include "fname.h"
 #include "sexpr.h"
+#include "ccode.h"
 #include "verif.h"
 #include <stdarg.h>
 
-#define NSCHED 24
-static unsigned char v_sched[NSCHED];
-static int  v_pos;
-static int  v_io_failed;        /* ghost: some operation on the output failed            */
-static int  v_err_sticky;       /* the stream's error indicator                            */
-static int  v_open;
-static FILE v_stream;
-
-static int v_fail_now(void)
-{
-	int f;
-	V_ASSUME(v_pos < NSCHED);          /* bound: at most NSCHED stdio calls per emitter run */
-	f = v_sched[v_pos++] & 1;
-	return f;
-}
-
-/* ---- stdio model ---- */
-FILE *fopen(const char *name, const char *mode)
-{
-	(void) name; (void) mode;
-	if (v_fail_now()) return 0;        /* cannot create the output */
-	v_open = 1; v_err_sticky = 0;
-	return &v_stream;
-}
-static int v_write(FILE *f)
-{
-	if (f != &v_stream) return 0;
-	if (v_fail_now()) { v_err_sticky = 1; v_io_failed = 1; return -1; }
-	return 0;
-}
-int fputc(int c, FILE *f)                   { return v_write(f) ? EOF : (unsigned char) c; }
-int putc(int c, FILE *f)                    { return v_write(f) ? EOF : (unsigned char) c; }
-int fputs(const char *s, FILE *f)           { (void) s; return v_write(f) ? EOF : 1; }
-size_t fwrite(const void *p, size_t sz, size_t n, FILE *f) { (void) p; (void) sz; return v_write(f) ? 0 : n; }
-int fprintf(FILE *f, const char *fmt, ...)  { (void) fmt; return v_write(f) ? -1 : 1; }
-int vfprintf(FILE *f, const char *fmt, va_list ap) { (void) fmt; (void) ap; return v_write(f) ? -1 : 1; }
-int fflush(FILE *f)                         { return v_write(f) ? EOF : 0; }
-int ferror(FILE *f)                         { return f == &v_stream ? v_err_sticky : 0; }
-int fclose(FILE *f)
-{
-	if (f != &v_stream) return 0;
-	v_open = 0;
-	if (v_fail_now()) { v_io_failed = 1; return EOF; }
-	return 0;
-}
+#include "c18_stdio.h"
 
 /* ---- content writers: N writes on the stream ---- */
 #ifndef WRITES_PER_CALL
@@ -107,7 +64,8 @@ static EmitInfo setup(const unsigned char *sched, FTypeNo kind)
 {
 	int i;
 	for (i = 0; i < NSCHED; i++) v_sched[i] = sched[i];
-	v_pos = 0; v_io_failed = 0; v_err_sticky = 0; v_open = 0;
+	v_pos = 0; v_io_failed = 0; v_open = 0;
+	for (i = 0; i < NSTREAM; i++) { v_err_sticky[i] = 0; v_isopen[i] = 0; }
 	fileSetHandler(v_handler);
 	v_finfo.fname[kind] = FN_OUT;
 	v_finfo.fname[FTYPENO_SRC] = FN_SRC;
@@ -144,4 +102,34 @@ V_ENTRY(h_emit_lisp, unsigned char fail[NSCHED]; int axlmain; int oneform;)
 	fi->isAXLmain = in->axlmain != 0;
 	emitTheLisp(fi, in->oneform ? &v_cons : &v_nil);
 	VERDICT("emitTheLisp (-Flsp)");
+}
+
+/* ---- the C emitter: header + one C file (split output, -Csmax) or a single C file ---- */
+int  ccoPrint(FILE *f, CCode cc, CCodeMode m)  { (void) cc; (void) m; return v_content(f); }
+Bool ccDoStandardC(void) { return 1; }
+Bool ccLineNos(void)     { return 0; }
+static Length v_cclen(CCodeList l) { Length n = 0; while (l && n < 4) { n++; l = cdr(l); } return n; }
+static struct CCode_listOpsStruct v_ccops = { ._Length = v_cclen };
+struct CCode_listOpsStruct const *CCode_listPointer = &v_ccops;
+struct FileName_listOpsStruct const *FileName_listPointer = 0;      /* only used for >= 3 output files */
+
+static union ccode v_cc_body  = { .ccoNode = { .argc = 1 } };
+static union ccode v_cc_unit1 = { .ccoNode = { .argc = 1, .argv = { &v_cc_body } } };
+static union ccode v_cc_unit0 = { .ccoNode = { .argc = 1, .argv = { &v_cc_body } } };
+static struct CCodeListCons v_ccl1 = { &v_cc_unit1, 0 };
+static struct CCodeListCons v_ccl0 = { &v_cc_unit0, &v_ccl1 };
+static struct fileName v_fn_hdr = { { "", "out", "h" } };
+
+V_ENTRY(h_emit_c_single, unsigned char fail[NSCHED];)
+{
+	EmitInfo fi = setup(in->fail, FTYPENO_C);
+	emitTheC(fi, &v_ccl1);                 /* one unit: a single .c file */
+	VERDICT("emitTheC (-Fc, one file)");
+}
+V_ENTRY(h_emit_c_split, unsigned char fail[NSCHED];)
+{
+	EmitInfo fi = setup(in->fail, FTYPENO_C);
+	fi->fname[FTYPENO_H] = &v_fn_hdr;
+	emitTheC(fi, &v_ccl0);                 /* two units: shared header + one .c file, both on the modelled device */
+	VERDICT("emitTheC (-Fc split: .h + .c)");
 }
